@@ -1654,6 +1654,36 @@ func runIsolation(e *ev.Env) {
 		ic.Adaptor = true
 		judgeIso(e, c, ic)
 	})
+	// family localtypes: no twin app — two handlers bind the same keys into request types of the same
+	// name (one takes a list where the other takes a scalar) and check the result against the request
+	// themselves; the order in which they are first asked varies. (State that outlives an app —
+	// package-level caches keyed by type name — cannot be seen by comparing two apps of one process.)
+	e.Cases("localtypes", e.N(64, 640), func(c *ev.Case) {
+		r := c.R
+		cfg := isoCfg{Custom: r.Chance(1, 3), Immutable: r.Chance(1, 4), Split: r.Chance(3, 4)}
+		app, s := isoBuild(cfg)
+		var script []wreq
+		order := []string{"a", "b"}
+		if r.Bool() {
+			order = []string{"b", "a"}
+		}
+		for i := r.Range(2, 5); i > 0; i-- {
+			h := order[i%2]
+			q := &reqSpec{Target: "/lists/" + h + "?l=" + r.StringFrom(gen.Lower, 3) + "," + r.StringFrom(gen.Lower, 2) + "&s=" + r.StringFrom(gen.Lower, 2) + "," + r.StringFrom(gen.Lower, 4) + "," + r.StringFrom(gen.Lower, 1)}
+			script = append(script, wreq{Kind: "lists-" + h, Raw: q.raw()})
+		}
+		sv := serveScript(drive.NewWire(app), script)
+		e.Eval(len(script))
+		if sv.problem != "" {
+			e.Inconclusive(c.ID + ": " + sv.problem)
+			return
+		}
+		e.Nontrivial(c.ID)
+		for _, w := range s.selfWrong {
+			w["cfg"], w["order"] = cfg.String(), order
+			e.Violation(c, "wrong-bind|same-named-request-types", "a handler's struct was not filled with what its request contains (another handler binds a like-named type)", w)
+		}
+	})
 	if e.Only == "" {
 		e.Note("nontrivial_rule", "probe ran on a context object that served an earlier request of the same app (pointer logged by the entry middleware / ErrorHandler)")
 	}
